@@ -108,4 +108,42 @@ def treeOfToks (toks : List XTok) : Option Tree :=
   | some (t, []) => if toksOf t == toks then some t else none
   | _ => none
 
+/-! ### Generic content trees (decoder side): what the tokenizer's stream means before any schema -/
+
+inductive Node
+  | text (s : List Char)
+  | elem (name : String) (attrs : List (String × List Char)) (kids : List Node)
+  deriving Repr, Inhabited
+
+inductive Parsed (α : Type)
+  | ok (v : α) (rest : List XTok)
+  | bad (unmodelled : Bool)          -- the tokenizer failed, or the stream ended inside an element
+  deriving Repr
+
+mutual
+/-- the content of the current element, up to and including its end tag -/
+def parseNodes : Nat → List XTok → Parsed (List Node)
+  | 0, _ => .bad true
+  | _, [] => .bad false
+  | fuel + 1, .bad u :: _ => .bad u
+  | fuel + 1, .stop _ :: r => .ok [] r
+  | fuel + 1, .text t :: r =>
+    match parseNodes fuel r with
+    | .ok ns r' => .ok (.text t :: ns) r'
+    | .bad u => .bad u
+  | fuel + 1, .start n as :: r =>
+    match parseNodes fuel r with
+    | .ok kids r' =>
+      match parseNodes fuel r' with
+      | .ok ns r'' => .ok (.elem n as kids :: ns) r''
+      | .bad u => .bad u
+    | .bad u => .bad u
+end
+
+/-- concatenated character data directly inside an element (child elements are skipped) -/
+def textOf : List Node → List Char
+  | [] => []
+  | .text t :: r => t ++ textOf r
+  | .elem _ _ _ :: r => textOf r
+
 end TrackVerif.LT.Xml
